@@ -4,7 +4,7 @@ from sx import oracle as O
 from . import sxlib
 
 PROPERTY = "C08"
-_chk = sxlib.SxCheck("C08", [O.no_idle_forward], sxlib.sched_cells)
+_chk = sxlib.SxCheck("C08", [O.no_idle_forward, O.no_idle_backward], sxlib.sched_cells)
 META = dict(sxlib.SX_META, functions=["Project.scheduleScenario/finishScenario", "TaskScenario.schedule and everything below it", "ResourceScenario.available/book"],
             bounds="template family S1-S5 (see checks/sxlib.py): <=3-4 leaf tasks, efforts 60 s .. 2.5 slots as symbolic seconds, efficiencies by cell, "
                    "resolutions 1 h / 15 min, gaps {29min,1h,1d}, team / alternative allocations, nested containers; horizon 2 weeks")
